@@ -52,6 +52,7 @@ def jobs(tier):
         js.append({"name": f"towers-{i // chunk}", "kind": "towers", "betas": betas[i:i + chunk]})
     js.append({"name": "atoms-through-towers", "kind": "tower_atoms"})
     js.append({"name": "tower-callsites", "kind": "tower_callsites"})
+    js.append({"name": "pnorm-exp-cone-sampled", "kind": "pnorm_sampled"})     # exactness of the 'N' branch: numerical stand-in
     return js
 
 
@@ -431,4 +432,6 @@ def run_job(job):
         return tower_atoms()
     if k == "tower_callsites":
         return tower_callsites()
+    if k == "pnorm_sampled":
+        return c06.pnorm_exp_cone_sampled()
     raise ValueError(k)
